@@ -17,6 +17,7 @@ THEOREMS = [
     "Wild.Link.spec_dynamic_first",
     "Wild.Link.select_order_of_equals",
     "Wild.Link.undefined_error_iff",
+    "Wild.Link.undefined_error_iff_regular",
 ]
 LEVEL = "proof"
 TECHNIQUE = "Lean 4 theorems over an executable model of select_symbol/SymbolPrioritySelector + whole-link differential correspondence (wild vs model, GNU ld/lld as oracle)"
